@@ -7,14 +7,40 @@ from simnet.scen import US
 
 B_RECOVER = 30 * US     # bounded-progress restatement of "eventually" (DESIGN 4.2)
 MAXFR = 14              # frames estimated to need more than this many fragments are not judged
+DROPS = [0]             # frames the client took from its tun and discarded by its congestion policy
 
 
 def _seq_check(k, reader, writer, eligible, t_from=None, offer_time=None):
     """Compare the sequence of eligible frames `reader` took from its tun with the sequence `writer` wrote.
     Returns (problem|None, n_read, n_written)."""
     reads, writes = [], []
+    pending = None
     for ev in k.log:
-        if ev[1] == "tun_read" and ev[2] == reader:
+        if ev[2] == reader and reader != "srv":
+            # The client takes a frame from its tun but deliberately discards it when it is still busy
+            # with the previous one ("get up-to-date fast by simply dropping stuff"); such a frame was
+            # not accepted.  Observable definition of acceptance: the tun_read is followed, before the
+            # client blocks again, by the transmission of the first piece of that frame.
+            if ev[1] == "tun_read":
+                pending = ev[3]["data"]
+                continue
+            if pending is not None and ev[1] == "send":
+                d = ev[3]["data"]
+                isdata = (d[:3] == proto.RAW_MAGIC and len(d) > 3 and (d[3] & 0xF0) == proto.RAW_DATA) or \
+                         (len(d) > 14 and d[13:14].lower() in (b"0", b"1", b"2", b"3", b"4", b"5", b"6", b"7", b"8",
+                                                              b"9", b"a", b"b", b"c", b"d", b"e", b"f"))
+                if isdata:
+                    f = pending
+                    pending = None
+                    i = proto.frame_ident(f)
+                    if i is not None and eligible(f) and (t_from is None or offer_time.get(i, 0) >= t_from):
+                        reads.append((i, f))
+                continue
+            if pending is not None and ev[1] == "wait":
+                pending = None
+                DROPS[0] += 1
+                continue
+        if ev[1] == "tun_read" and ev[2] == reader and reader == "srv":
             f = ev[3]["data"]
             i = proto.frame_ident(f)
             if i is not None and eligible(f) and (t_from is None or offer_time.get(i, 0) >= t_from):
@@ -105,6 +131,7 @@ def scn(params):
         k.at(tf + F, lambda: st.__setitem__("snap_at_clean", dict(t.srv.snapshot[0]) if t.srv.snapshot else {}))
         return tt + 60 * US
 
+    DROPS[0] = 0
     t = tunnelscn.run_tunnel("c02-%d" % params["idx"], cfg, seed, plan)
     try:
         k = t.sim.k
@@ -180,6 +207,7 @@ def scn(params):
             if out["stats"].get("post_down_delivered", 0) >= 8 and out["stats"].get("post_up_delivered", 0) >= 8:
                 out["nontrivial"].append(repr(("recover", cfg["fault"]) + tunnelscn.negotiated_sig(t)))
         out["sets"]["negotiated"] = {repr(tunnelscn.negotiated_sig(t))}
+        out["stats"]["client_policy_drops_%s" % mode] = DROPS[0]
         if params["idx"] < 4:
             out["sample"] = {"mode": mode, "cfg": cfg, "negotiated": t.neg,
                              "stats": {kk: v for kk, v in out["stats"].items() if not kk.startswith("relay_")}}
